@@ -195,7 +195,7 @@ def run_shard(spec):
             if k % spec['parts'] != spec['part']:
                 continue
             j = k // spec['parts']
-            for word in (((2, 3, 4, 8)[j % 4],) if spec['tier'] == 'quick' else (2, 3, 4, 8)):
+            for word in (((2, 3, 4, 8)[j % 4], common.ODD_WORDS[j % 5]) if spec['tier'] == 'quick' else (2, 3, 4, 8) + common.ODD_WORDS):
                 common.check_scale(res, prog, argsets[j % len(argsets)], word, tag, monitors=('san',))
             if tag in SCALE_SWEEPS:
                 for word in ((2, 8) if spec['tier'] == 'quick' else (2, 3, 4, 8)):
@@ -208,7 +208,7 @@ def run_shard(spec):
                 continue
             src = A.render(prog)
             if spec['tier'] == 'quick':
-                observe(res, src, idioms.CAPTURE_ARGS[k % 2], (2, 3, 4, 8)[(k // 2) % 4], tag)
+                observe(res, src, idioms.CAPTURE_ARGS[k % 2], (2, 3, 4, 8, 6, 5)[(k // 2) % 6], tag)
             else:
                 for args in idioms.CAPTURE_ARGS:
                     for word in (2, 3, 4, 8):
@@ -224,7 +224,7 @@ def run_shard(spec):
                [(t, p, idioms.FRESH_ARGS[:1]) for t, p in idioms.fresh_literal_programs()] + [(t, p, idioms.NEIGHBOUR_ARGS[:1]) for t, p in idioms.global_neighbour_programs()]
         for k, (tag, prog, argsets) in enumerate(more):
             if k % spec['parts'] == spec['part']:
-                for word in (2, 3, 4, 8):
+                for word in (2, 3, 4, 8, common.ODD_WORDS[k % 5]):
                     observe(res, A.render(prog), argsets[0], word, tag)
         for k, (tag, prog, args) in enumerate(idioms.entry_programs()):
             if k % spec['parts'] == spec['part']:
